@@ -62,10 +62,14 @@ pub struct FaultRates {
   /// probability that a facade `park()` that was woken without its token returns (spurious
   /// return) instead of parking again
   pub spurious_park_return: u32,
+  /// add a scheduling point *after* every atomic write (store / swap / RMW / successful CAS) as
+  /// well as before it: lets another thread run between "published" and the plain memory
+  /// accesses that follow (a slot released before it was read, a flag set before the data)
+  pub post_write_yield: bool,
 }
 
 thread_local! {
-  static RATES: Cell<FaultRates> = const { Cell::new(FaultRates { cas_weak: 0, spurious_park_return: 0 }) };
+  static RATES: Cell<FaultRates> = const { Cell::new(FaultRates { cas_weak: 0, spurious_park_return: 0, post_write_yield: false }) };
   static FAULTS: RefCell<BTreeMap<&'static str, u64>> = const { RefCell::new(BTreeMap::new()) };
   static PROBES: RefCell<BTreeMap<&'static str, u64>> = const { RefCell::new(BTreeMap::new()) };
   static SEQ: Cell<u64> = const { Cell::new(0) };
@@ -94,6 +98,20 @@ pub fn reset_run(rates: FaultRates, start_ns: u64) {
   RUN_NONCE.with(|s| s.set(0));
   RUN_EPOCH.with(|e| e.set(e.get() + 1));
   crate::time::reset(start_ns);
+}
+
+thread_local! {
+  static SWITCH_POINT: shuttle::sync::atomic::AtomicBool = const { shuttle::sync::atomic::AtomicBool::new(false) };
+}
+
+/// A neutral scheduling point after an atomic write (see `FaultRates::post_write_yield`).
+#[inline]
+pub fn after_write() {
+  if RATES.with(|r| r.get()).post_write_yield {
+    SWITCH_POINT.with(|a| {
+      let _ = a.load(std::sync::atomic::Ordering::SeqCst);
+    });
+  }
 }
 
 pub fn rates() -> FaultRates {
